@@ -6,12 +6,14 @@ base = json.load(open(os.path.join(ROOT, "tools", "manifest_base.json")))
 all_ids = [json.loads(l)["id"] for l in open(os.path.join(ROOT, "properties.jsonl"))]
 checks = []
 claimed = set()
+# only properties listed in tools/claimed.txt are claimed (their check is green on the unchanged tree)
+allow = set(open(os.path.join(ROOT, "tools", "claimed.txt")).read().split())
 for pid in all_ids:
     p = os.path.join(ROOT, "props", pid + ".json")
     if not os.path.exists(p):
         continue
     c = json.load(open(p))
-    if c.get("disabled"):
+    if c.get("disabled") or pid not in allow:
         continue
     claimed.add(pid)
     checks.append({
